@@ -29,7 +29,8 @@ struct HookState {
   long unusual_fired = 0;
   long fatal_errors = 0;
   bool td_check_delayed_now = false; // neutraliser of KF52 (site td_check_delayed_now)
-  long refused_queries = 0; // queries on a value that crab refused inside in_gamma (process total)
+  long refused_queries = 0; // queries crab refused inside in_gamma (reset per case by apply_knobs)
+  long tag_checks = 0;      // get_tags answers compared with the tags of a concrete cell (per case)
 };
 HookState &hooks();
 
